@@ -134,7 +134,8 @@ Proof. exists [("Train_Features", JList [JStr "ghi"])]. vm_compute. discriminate
 Print Assumptions C14_hourly_dispatch_is_case_sensitive.
 
 (* ================================================================== (4) stored models *)
-(* Full statement (kept visible): what a model records is what it was built with, and the record reloads to it. *)
+(* Full statement (kept visible): what a model records is what it was built with, and the record reloads to it.
+   Refuted for the billing models only (below); enumerated for the daily ones (end of file). *)
 Definition C14_stored_statement (c : ctor) : Prop :=
   forall i s, construct reg c i = Accept s ->
     stored_settings c s = dump s /\
@@ -160,13 +161,23 @@ Proof.
   destruct Hi as [<-|[<-|[<-|[]]]]; (split; [vm_compute; reflexivity|]); split; vm_compute; reflexivity.
 Qed.
 
-(* refuted for the legacy daily model: DailyModel.from_dict rebuilds with the CURRENT defaults, the lock rejects
-   the legacy document (D6; known finding C14-K2) *)
-Theorem C14_stored_legacy_refuted :
-  exists s, construct reg (CDailyModel "legacy") InNone = Accept s /\
-            reload reg (CDailyModel "legacy") (stored_settings (CDailyModel "legacy") s) = Reject RDeveloper.
-Proof. exists (the (construct reg (CDailyModel "legacy") InNone)). split; vm_compute; reflexivity. Qed.
-Print Assumptions C14_stored_legacy_refuted.
+(* the legacy daily model (former finding D6 / C14-K2, fixed in /repo 394645be): the record of a legacy model built
+   WITHOUT developer mode is refused by the current settings class (the lock, against the current defaults) and
+   from_dict then rebuilds it as DailyModel(model="legacy"): it reloads to the settings it was built with, and the lock
+   has run against the legacy defaults.  Regression case in corpus/C14.json. *)
+Theorem C14_stored_legacy_reloads :
+  exists s s', construct reg (CDailyModel "legacy") InNone = Accept s /\
+               developer_mode_of s = Some false /\
+               construct reg (CDailyModel "current") (InDict (match dump s with JObj kvs => kvs | _ => [] end)) = Reject RDeveloper /\
+               reload reg (CDailyModel "legacy") (stored_settings (CDailyModel "legacy") s) = Accept s' /\
+               jv_eqb (dump s') (dump s) = true.
+Proof.
+  exists (the (construct reg (CDailyModel "legacy") InNone)).
+  exists (the (reload reg (CDailyModel "legacy") (stored_settings (CDailyModel "legacy") (the (construct reg (CDailyModel "legacy") InNone))))).
+  split; [vm_compute; reflexivity|]. split; [vm_compute; reflexivity|]. split; [vm_compute; reflexivity|].
+  split; vm_compute; reflexivity.
+Qed.
+Print Assumptions C14_stored_legacy_reloads.
 
 (* refuted for the billing models: to_dict overwrites developer_mode (known findings C14-K3/K4) *)
 Theorem C14_stored_billing_refuted :
@@ -222,15 +233,12 @@ Proof. vm_compute. reflexivity. Qed.
 Print Assumptions C14_hourly_trees_have_no_lock.
 
 (* build -> store -> reload, exhaustive inside Coq over every leaf x every model-side alternative (at most four
-   members of a long enum; developer leaves
-   overridden in developer mode, open leaves without it), on the regenerated trees:
-     current daily model, BillingModel        : every accepted construction reloads, and the reloaded settings dump
-                                                to the record;
-     DailyModel(model="legacy")               : exactly the models built in developer mode reload; every other record
-                                                is refused by the lock of the current defaults (D6, C14-K2) *)
+   members of a long enum; developer leaves overridden in developer mode, open leaves without it), on the regenerated
+   trees: for the current daily model, DailyModel(model="legacy") and BillingModel every accepted construction reloads,
+   and the reloaded settings dump to the record (for the billing model the record carries the forced developer_mode) *)
 Theorem C14_stored_reload_enumerated :
-  all_reloads_ok reg SameRecord (CDailyModel "current") t_DailySettings = true /\
-  all_reloads_ok reg LockedOutUnlessDev (CDailyModel "legacy") t_DailyLegacySettings = true /\
-  all_reloads_ok reg SameRecord CBillingModel t_DailyLegacySettings = true.
+  all_reloads_ok reg (CDailyModel "current") t_DailySettings = true /\
+  all_reloads_ok reg (CDailyModel "legacy") t_DailyLegacySettings = true /\
+  all_reloads_ok reg CBillingModel t_DailyLegacySettings = true.
 Proof. split; [|split]; vm_cast_no_check (eq_refl true). Qed.
 Print Assumptions C14_stored_reload_enumerated.
